@@ -294,40 +294,12 @@ def check_table(ctx, case):
 
 
 # -- shipped groups ----------------------------------------------------------------
-LIBS = ['BensonGA', 'GRWAqueous2018', 'GRWSurface2018', 'GuSolventGA2017Aq', 'GuSolventGA2017Vac', 'PPY',
-        'PtSurface2023', 'SalciccioliGA2012', 'XieGA2022']
-_libs = {}
-
-
-def lib(name):
-    if name not in _libs:
-        from pgradd.GroupAdd.Library import GroupLibrary
-        import pgradd.ThermoChem  # noqa
-        _libs[name] = GroupLibrary.Load(name)
-    return _libs[name]
+from vlib.shipped import LIBS, lib, group_names
 
 
 def enum_shipped(tier):
-    import os
-    import yaml
-    # enumerate (library, group name) from the data files themselves, so the list does not depend on Load
-    from vlib.core import REPO
     for L in LIBS:
-        names = []
-        base = os.path.join(REPO, 'pgradd', 'data', L)
-        for root, _d, files in os.walk(base):
-            for fn in sorted(files):
-                if fn.endswith('.yaml') and fn != 'scheme.yaml':
-                    try:
-                        d = yaml.load(open(os.path.join(root, fn)), Loader=yaml.BaseLoader)
-                    except Exception:
-                        continue
-                    if isinstance(d, dict):
-                        for sect in ('groups', 'other_descriptors'):
-                            for k in (d.get(sect) or {}):
-                                if k not in names:
-                                    names.append(k)
-        for k in names:
+        for k in group_names(L):
             yield dict(kind='shipped', lib=L, group=k)
 
 
